@@ -114,8 +114,8 @@ func c12ProgramFamilies(r *harness.Run) {
 			return
 		}
 		pr := &progRunner{r: r, prop: "C12", opts: cfg.opts, sigPrefix: "p4/" + cfg.name + "/"}
-		gens := map[string]Gen{"F-growcross": genGrowCross(th), "F-callalign": genCallAlign()}
-		order := []string{"F-growcross", "F-callalign"}
+		gens := map[string]Gen{"F-growcross": genGrowCross(th), "F-callalign": genCallAlign(), "F-opgrow": genOpGrow(th)}
+		order := []string{"F-growcross", "F-callalign", "F-opgrow"}
 		depths := []int{5, 6}
 		if th {
 			depths = []int{4, 5, 6, 7}
